@@ -31,6 +31,121 @@ def all_strings(alpha, maxlen):
             yield bytes(t)
 
 
+A31, B32 = 1 << 31, 1 << 32
+HSIZE = B32 + A31 + 4096
+
+
+def hmem(i):
+    marked = i < 16 or A31 - 16 <= i < A31 + 16 or B32 - 16 <= i < B32 + 16 or HSIZE - 16 <= i < HSIZE
+    return (i * 37 + 11) % 255 + 1 if marked else 0
+
+
+def hv(off, ln):
+    off = max(0, min(off, HSIZE))
+    ln = max(0, min(ln, HSIZE - off))
+    return f"{off}:{ln}"
+
+
+def huge_lines(rng, n, expensive=False):
+    """op lines over views of lengths around 2^31 / 2^32 into the sparse mapping of the harness; built
+    so that (almost all of them) satisfy the window contract; the rest answers bad-op on both sides"""
+    out = []
+
+    def big():
+        return rng.choice([A31, B32, B32, A31 + B32]) + rng.choice([-17, -5, -2, -1, 0, 0, 1, 2, 5, 16, 100])
+
+    def small():
+        return rng.choice([0, 1, 2, 5, 5, 8, 16, 17, 40, 64, 65])
+
+    def off():
+        return rng.choice([0, 0, 1, 5, 16, 100, A31 - 20, A31 - 3, A31, A31 + 16, B32 - 16, B32 - 1, B32, B32 + 40])
+
+    def num(x):
+        return "n" if x is None else str(max(0, x))
+
+    for _ in range(n):
+        m = rng.choice(["t", "t", "s"])
+        k = rng.randrange(14)
+        o = off()
+        if k == 0:      # same start, very different lengths (one is a prefix of the other)
+            a, b = hv(o, small()), hv(o, big())
+            if rng.random() < 0.5:
+                a, b = b, a
+            out.append(f"{m} hcmp {a} {b}")
+        elif k == 1:    # different starts, decided by the first bytes or short
+            a, b = hv(off(), rng.choice([small(), big()])), hv(off(), rng.choice([small(), big()]))
+            out.append(f"{m} hcmp {a} {b}")
+        elif k == 2:
+            ln = big()
+            pos = rng.choice([0, 5, A31, B32 - 1, B32, B32 + 1, ln - 5, ln, ln + 1, None])
+            cnt = rng.choice([0, 5, A31, B32, B32 + 7, None])
+            out.append(f"{m} hsub {hv(o, ln)} {num(pos)} {num(cnt)}")
+        elif k == 3:
+            ln = big()
+            v = hv(o, ln)
+            real = int(v.split(":")[1])
+            out.append(f"{m} hrm {v} {num(rng.choice([0, 5, A31, B32, B32 + 1, real - 3, real]))}")
+        elif k == 4:
+            ln = big()
+            out.append(f"{m} hat {hv(o, ln)} {num(rng.choice([0, 3, A31 - 1, A31, B32 - 1, B32, B32 + 3, ln - 1, ln, ln + 1, None]))}")
+        elif k == 5:
+            ln = big()
+            out.append(f"{m} hcopy {hv(o, ln)} {rng.choice([0, 1, 8, 32])} {num(rng.choice([0, A31 - 4, B32 - 4, B32, ln - 3, ln, ln + 1]))}")
+        elif k == 6:    # substring comparisons with positions beyond 2^32
+            ln = B32 + rng.choice([40, 100, 1000])
+            p1 = rng.choice([B32 - 8, B32, B32 + 8, ln, ln + 1])
+            w = hv(rng.choice([B32 - 8, B32, B32 + 8, 0]), rng.choice([0, 8, 30, 50]))
+            if rng.random() < 0.5:
+                out.append(f"{m} hcmp3 {hv(0, ln)} {p1} {num(rng.choice([None, 8, 30]))} {w}")
+            else:
+                out.append(f"{m} hcmp5 {hv(0, ln)} {p1} {num(rng.choice([None, 8, 30]))} {hv(0, HSIZE - 100)} "
+                           f"{rng.choice([B32 - 8, B32, B32 + 8, HSIZE])} {num(rng.choice([None, 8, 30]))}")
+        elif k == 7:    # forward scans that are decided at once or run into a marker block / the end
+            ln = big()
+            v = hv(o, ln)
+            vo, vl = (int(x) for x in v.split(":"))
+            target = rng.choice([A31 - 16, B32 - 16, HSIZE - 16])
+            pos = rng.choice([target - vo - rng.randrange(1, 40), vl - rng.randrange(0, 30), vl, vl + 1, rng.randrange(0, 50)])
+            op, needle = rng.choice([("hfind", "00"), ("hfind", "0000"), ("hfind", "-"), ("hffo", "00"), ("hffno", "00"),
+                                     ("hffno", "-"), ("hffo", "-"), ("hffo", "ff00"),
+                                     ("hfind", bytes(hmem(target + j) for j in range(3)).hex()),
+                                     ("hffo", bytes([hmem(target), hmem(target + 1)]).hex())])
+            out.append(f"{m} {op} {v} {needle} {num(pos)}")
+        elif k == 8:    # backward scans
+            ln = big()
+            v = hv(o, ln)
+            vo, vl = (int(x) for x in v.split(":"))
+            target = rng.choice([A31 + 15, B32 + 15, 15])
+            pos = rng.choice([target - vo + rng.randrange(1, 40), None, vl, vl - 1, rng.randrange(0, 50)])
+            op, needle = rng.choice([("hrfind", "00"), ("hrfind", "0000"), ("hrfind", "-"), ("hflo", "00"), ("hflno", "00"),
+                                     ("hflno", "-"), ("hflo", "-"),
+                                     ("hrfind", bytes(hmem(target - 2 + j) for j in range(3)).hex()),
+                                     ("hflo", bytes([hmem(target), hmem(target - 1)]).hex())])
+            out.append(f"{m} {op} {v} {needle} {num(pos)}")
+        elif k == 9:    # starts_with / ends_with with aliased short views
+            ln = big()
+            v = hv(o, ln)
+            vo, vl = (int(x) for x in v.split(":"))
+            l2 = small()
+            w = rng.choice([hv(vo, l2), hv(vo + vl - l2, l2), hv(off(), l2), hv(vo, vl), hv(vo, vl + 1)])
+            out.append(f"{m} hsw {v} {w}")
+        elif k == 10:   # a view of up to 1 MiB against a huge one, decided by an early marker difference or the length
+            out.append(f"{m} hcmp {hv(rng.choice([0, A31 - 16, B32 - 16]), rng.choice([100, 65536, 1 << 20]))} "
+                       f"{hv(rng.choice([0, 1, A31 - 16, B32 - 15]), big())}")
+        elif k == 11:   # equal start and equal length, or lengths that differ by 2^31 / 2^32 exactly
+            l1 = small()
+            out.append(f"{m} hcmp {hv(o, l1)} {hv(o, l1 + rng.choice([0, A31, A31 - 1, A31 + 1, B32, B32 + 1, B32 - 1, A31 + B32]))}")
+        elif k == 12:
+            out.append(f"{m} hat {hv(o, small())} {num(rng.choice([0, 1, 5, None, B32, B32 + 1]))}")
+        else:
+            if expensive and rng.random() < 0.15:
+                out.append(f"t hcmpx {hv(rng.choice([0, 1]), A31 + 5)} {hv(0, A31 + rng.choice([5, 6, B32]))}")
+            else:
+                a = hv(o, small())
+                out.append(f"{m} hcmp {a} {a}")
+    return out
+
+
 def pair_case(cid, h, n, modes=("t", "s"), ops2=OPS2, ops1=OPS1):
     lines = [f"case {cid}"]
     for m in modes:
@@ -66,6 +181,32 @@ class C18(flow.Spec):
                     "exact-size unterminated heap ranges)"]
     search_rounds = 2
     _exh = None
+    _huge = None
+    _hb = None
+
+    def harness_path(self, ctx):
+        if self._hb is None:
+            self._hb, _ = core.build_harness(ctx, **self.harness)
+        return self._hb
+
+    def compare(self, op, impl, model):
+        if impl == model:
+            return True
+        # a machine that cannot map 6 GiB of address space answers the huge-view lines (the two corpus cases
+        # included) with bad-op: nothing is claimed about them there
+        t = op.split()
+        if impl == "bad-op" and len(t) > 1 and t[1].startswith("h"):
+            if self._huge is None:
+                import glob
+                import os
+                bins = sorted(glob.glob(os.path.join(core.BUILD, "C18", "c18-*")), key=os.path.getmtime)
+                ok = True
+                if bins:
+                    rc, out, _ = core.sh([bins[-1], "hprobe"], env=core.SAN_ENV)
+                    ok = "huge-ok" in out
+                self._huge = ok
+            return not self._huge
+        return False
 
     def viol_class(self, message):
         # "#VIOL <op> <group> tlx … std …" / "#VIOL terminate …" / "#VIOL crash …"
@@ -73,7 +214,7 @@ class C18(flow.Spec):
 
     # ---------------------------------------------------------------- exhaustive tlx vs std in the harness
     def exhaustive(self, ctx, maxh, maxn, asize):
-        hb, _ = core.build_harness(ctx, **self.harness)
+        hb = self.harness_path(ctx)
         if hb is None:
             return []
         env = dict(core.SAN_ENV)
@@ -101,6 +242,47 @@ class C18(flow.Spec):
         self._exh = (self._exh or []) + [ev]
         return cases
 
+    def exhaustive_alias(self, ctx, maxb, asize):
+        """in-process tlx vs std with the needle a view into the haystack's own buffer"""
+        import os
+        hb = self.harness_path(ctx)
+        if hb is None:
+            return []
+        e = dict(os.environ); e.update(core.SAN_ENV)
+        p = subprocess.run([hb, "exha", str(maxb), str(asize)], capture_output=True, text=True, env=e, errors="replace")
+        cases, last_at, summary, k = [], None, None, 0
+        for l in p.stdout.splitlines():
+            if l.startswith("#AT "):
+                last_at = l.split()[1]
+            elif l.startswith("#EXH"):
+                summary = l
+            elif l.startswith("#DIED-IN "):
+                cases.append([f"case exha-died{k}", l[len("#DIED-IN "):]]); k += 1
+            elif l.startswith("t "):
+                cases.append([f"case exha{k}", l]); k += 1
+        if p.returncode != 0 and last_at:
+            # died somewhere behind this haystack view: all its aliased needles through the line protocol
+            buf = last_at.split("@")[0]
+            blen = 0 if buf == "-" else len(buf) // 2
+            for o2 in range(blen + 1):
+                for l2 in range(blen - o2 + 1):
+                    cases.append(pair_case(f"exha-died-at{k}", last_at, f"@{o2}:{l2}", modes=("t",), ops1=[])); k += 1
+        ctx.say(f"exhaustive aliasing tlx vs std (buffer<={maxb}, alphabet {asize}): rc={p.returncode} "
+                f"{summary or 'no summary (died)'}; {len(cases)} witness cases")
+        self._exh = (self._exh or []) + [dict(aliasing=True, maxbuf=maxb, alphabet=asize, rc=p.returncode, summary=summary)]
+        return cases
+
+    def huge_available(self, ctx):
+        if self._huge is None:
+            hb = self.harness_path(ctx)
+            ok = False
+            if hb is not None:
+                rc, out, _ = core.sh([hb, "hprobe"], env=core.SAN_ENV)
+                ok = "huge-ok" in out
+            self._huge = ok
+            ctx.say("huge views (MAP_NORESERVE mapping of 6 GiB): " + ("available" if ok else "NOT available - skipped"))
+        return self._huge
+
     # ---------------------------------------------------------------- line-protocol cases
     def cases(self, ctx, seed, tier, round_no=0):
         rng = random.Random(seed * 1000003 + round_no)
@@ -108,10 +290,15 @@ class C18(flow.Spec):
         quick = (tier == "quick")
         if round_no == 0:
             if quick:
-                cs += self.exhaustive(ctx, 3, 3, 5)
+                cs += self.exhaustive(ctx, 3, 2, 5)
+                cs += self.exhaustive(ctx, 3, 3, 3)
+                cs += self.exhaustive_alias(ctx, 3, 3)
+                cs += self.exhaustive_alias(ctx, 4, 2)
             else:
                 cs += self.exhaustive(ctx, 4, 3, 5)
                 cs += self.exhaustive(ctx, 6, 2, 3)
+                cs += self.exhaustive_alias(ctx, 4, 5)
+                cs += self.exhaustive_alias(ctx, 6, 2)
         # exhaustive small pairs through model and spec as well
         hmax, nmax = (3, 1) if quick else (4, 2)
         if round_no == 0:
@@ -120,6 +307,36 @@ class C18(flow.Spec):
             for i, h in enumerate(hs):
                 for j, n in enumerate(ns):
                     cs.append(pair_case(f"x{i}.{j}", h, n, ops1=OPS1 if j == 0 else []))
+            # aliased arguments through model and spec as well: every pair of sub-views of small buffers
+            bufs = [b for b in all_strings([0x00, 0x61, 0x80] if quick else ALPHA, 2 if quick else 3) if len(b)]
+            k = 0
+            for b in bufs:
+                L = len(b)
+                views = [(o, l) for o in range(L + 1) for l in range(L - o + 1)]
+                for (o1, l1) in views:
+                    for (o2, l2) in views:
+                        cs.append(pair_case(f"al{k}", f"{tok(b)}@{o1}:{l1}", f"@{o2}:{l2}", ops1=[])); k += 1
+        # views of lengths around 2^31 / 2^32
+        if self.huge_available(ctx):
+            hl = huge_lines(rng, 1500 if quick else 20000, expensive=not quick)
+            # lines outside the window contract answer bad-op (and would block the shrinker): drop them.
+            # The contract is evaluated by the harness' own windowed reference, asked in std mode.
+            probe = ["s " + l.split(" ", 1)[1] for l in hl if l.split()[1] != "hcmpx"]
+            pout, prc, _ = core.run_lines([self.harness_path(ctx), "run"], ["case probe"] + probe)
+            if prc == 0 and len(pout) == len(probe) + 1:
+                bad = {p.split(" ", 1)[1] for p, a in zip(probe, pout[1:]) if a == "bad-op"}
+                hl = [l for l in hl if l.split(" ", 1)[1] not in bad]
+            for i in range(0, len(hl), 25):
+                cs.append([f"case h{round_no}.{i // 25}"] + hl[i:i + 25])
+        # random pairs of sub-views of one buffer (needle inside / overlapping / before / behind the haystack)
+        for i in range(300 if quick else 4000):
+            alpha = rng.choice([ALPHA, [0x61, 0x62], [0x00, 0x61]])
+            bl = rng.choice([3, 4, 5, 6, 8])
+            b = bytes(rng.choice(alpha) for _ in range(bl))
+            o1 = rng.randrange(bl + 1); l1 = rng.randrange(bl - o1 + 1)
+            o2 = rng.choice([o1, o1, rng.randrange(bl + 1)]); l2 = rng.randrange(bl - o2 + 1)
+            ops2 = OPS2 if l1 <= 5 and l2 <= 3 else [o for o in OPS2 if o != "cmp5"]
+            cs.append(pair_case(f"ra{round_no}.{i}", f"{tok(b)}@{o1}:{l1}", f"@{o2}:{l2}", ops2=ops2, ops1=[]))
         # random longer pairs; needles are mostly cut out of (or mutated from) the haystack
         nrand = (600 if quick else 8000)
         for i in range(nrand):
@@ -149,13 +366,14 @@ class C18(flow.Spec):
                 h, n = t[2], t[3]
                 if n in ("-", "null") or a.startswith("v=n"):
                     return None
-                hb = bytes.fromhex(h) if h not in ("-", "null") else b""
+                hx = h.split("@")[0]
+                hb = bytes.fromhex(hx) if hx not in ("-", "null") else b""
                 if any(c == 0 or c >= 0x80 for c in hb):
                     return (h, n)
         return None
 
     def extra_coverage(self, ctx, res):
-        return {"exhaustive_tlx_vs_std": self._exh or []}
+        return {"exhaustive_tlx_vs_std": self._exh or [], "huge_views_available": bool(self._huge)}
 
 
 SPEC = C18()
